@@ -64,11 +64,15 @@ TasksOf(cfg, c) ==
   \cup (IF "watch" \in DOMAIN cfg.comps[c] THEN ToSet(cfg.comps[c].watch) ELSE {})
 
 \* ---- organization ------------------------------------------------------
-Skill(cfg, w, t) == cfg.workers[w].skill[t]
+\* skill maps are keyed by task *name* (facility operating licences by facility name); several
+\* tasks (facilities) may share a name: alias = the index whose name this one carries
+TaskName(cfg, t) == IF "alias" \in DOMAIN cfg.tasks[t] THEN cfg.tasks[t].alias ELSE t
+FacName(cfg, f) == IF "alias" \in DOMAIN cfg.facs[f] THEN cfg.facs[f].alias ELSE f
+Skill(cfg, w, t) == cfg.workers[w].skill[TaskName(cfg, t)]
 HasSkill(cfg, w, t) == Skill(cfg, w, t) > 0
-FSkill(cfg, f, t) == cfg.facs[f].skill[t]
+FSkill(cfg, f, t) == cfg.facs[f].skill[TaskName(cfg, t)]
 FHasSkill(cfg, f, t) == FSkill(cfg, f, t) > 0
-CanOperate(cfg, w, f) == cfg.workers[w].fskill[f] > 0
+CanOperate(cfg, w, f) == cfg.workers[w].fskill[FacName(cfg, f)] > 0
 TeamTargets(cfg, w, t) == Mem(cfg.tasks[t].teams, cfg.workers[w].team)
 WpTargets(cfg, p, t) == Mem(cfg.tasks[t].wps, p)
 FacsOf(cfg, p) == SelectSeq([i \in Facs(cfg) |-> i], LAMBDA f: cfg.facs[f].wp = p)
